@@ -243,3 +243,5 @@ class EvalBounded(BoundedCheck):
 PROPERTY.bounded.append(EvalBounded())
 
 PROPERTY.bounded.append(EncoderCrossCheck(_XT['C16']))
+
+PROPERTY.explanation += ' eval(): the NameError branch is proved for both cases (a close variable name exists / none does): AttributeError naming the undefined name.'
